@@ -384,6 +384,8 @@ def parse_type(node, classes=None):
         n = node.id
         if n == 'MethodTag':
             return PT('mtag')
+        if n == 'Opaque':
+            return PT('opaque')
         base = {'Int': TInt, 'Bool': TBool, 'Str': TStr, 'Float': TFloat, 'Cell': TCell, 'Key': TKey, 'NoneT': TNone,
                 'Rec': TList(TCell), 'RecV': TSeq(TCell)}
         if n in base:
@@ -395,6 +397,8 @@ def parse_type(node, classes=None):
         head = node.value.id
         sl = node.slice
         elts = sl.elts if isinstance(sl, ast.Tuple) else [sl]
+        if head in ('Fn', 'Cls'):
+            return PT('fnref' if head == 'Fn' else 'clsref', elts[0].value)
         if head == 'Obj':
             if isinstance(elts[0], ast.Constant):
                 return TObj(elts[0].value)
